@@ -123,6 +123,9 @@ pub fn hash_struct(doc: &Doc, name: &str, v: &J, unc: &mut bool) -> R<[u8; 32]> 
     let members = doc.members(name).ok_or_else(|| Nonconforming(format!("undefined struct type {name}")))?;
     let obj = match v { J::Obj(o) => o, o => return bad(format!("expected object for {name}, got {}", o.kind_name())) };
     let mut buf = type_hash(doc, name)?.to_vec();
+    // a member name declared twice: no Solidity struct looks like that and EIP-712 is silent; refusing the document and
+    // encoding the member twice are both defensible - but a missing or an undeclared member is refused all the same
+    if members.iter().enumerate().any(|(i, (mn, _))| members[..i].iter().any(|(o, _)| o == mn)) { *unc = true; }
     for (mn, mt) in members {
         let mut hits = obj.iter().filter(|(k, _)| k == mn);
         let val = &hits.next().ok_or_else(|| Nonconforming(format!("{name} value misses member {mn}")))?.1;
